@@ -28,7 +28,7 @@ AXES = {
     'raw_offset': [0, 16], 'sparse_templates': [False, True],
     'dtype_times': ['uint64', 'int64', 'uint32', 'int32'],
     'dtype_ids': ['int32', 'int64', 'uint32', 'uint16'], 'dtype_map': ['int32', 'int64', 'uint32'],
-    'alf_store_samples': [True, False], 'nan': ['none', 'amps', 'similar', 'attrs', 'template'],
+    'alf_store_samples': [True, False], 'nan': ['none', 'amps', 'similar', 'attrs', 'template', 'template_first_row'],
     'attrs': ['none', 'right', 'wrong_len', 'both'], 'spikeless': ['none', 'first', 'middle', 'last'],
     'dat_path_str': [False, True], 'alf_skew': [False, True],
     'fortran': [False, True], 'raw_symlink': [False, True], 'dtype_amps': ['float64', 'float32'], 'dtype_templates': ['float32', 'float64'], 'dtype_feat': ['float32', 'float64'],
@@ -125,6 +125,9 @@ def build(case):
     if o['attrs'] in ('right', 'both'):
         spec.spike_attrs['quality'] = rng.normal(size=ns)
         spec.spike_attrs['pos2'] = rng.normal(size=(ns, 2))
+        # attribute names that merely begin with a reserved word (spike_times_ms.npy, spike_clusters_ks.npy)
+        spec.spike_attrs['times_ms'] = rng.normal(size=ns)
+        spec.spike_attrs['clusters_ks'] = rng.integers(0, 9, size=ns)
     if o['attrs'] in ('wrong_len', 'both'):
         spec.spike_attrs['stale'] = rng.normal(size=ns + 3)
     nan = o['nan']
@@ -139,6 +142,9 @@ def build(case):
         spec.spike_attrs['quality'][1] = np.inf
         spec.spike_attrs['pos2'][::4, 1] = np.nan          # a 2-D attribute array too
         spec.spike_attrs['pos2'][2, 0] = -np.inf
+    elif nan == 'template_first_row' and o['clusters'] != 'curated':
+        # NaN on every channel of the first waveform sample only: not an empty template, the values stay as stored
+        spec.templates[int(rng.integers(0, spec.n_templates)), 0, :] = np.nan
     elif nan == 'template':
         spec.templates[int(rng.integers(0, spec.n_templates))] = np.nan
         spec.notes['nan_template'] = True
